@@ -111,6 +111,7 @@ type Exec struct {
 	// results
 	violations    []Violation
 	vioSeen       map[string]bool
+	vioCount      map[string]int
 	paths         int
 	deadPaths     int
 	obligations   int
@@ -414,6 +415,15 @@ func (ex *Exec) recordViolation(st *State, kind, site, fn, msg string, extra ...
 	if len(ex.violations) >= ex.maxViolations {
 		return
 	}
+	// at most 3 counterexamples per (kind, site, message): leave room for others
+	base := kind + "|" + site + "|" + msg + "#n"
+	if ex.vioCount == nil {
+		ex.vioCount = map[string]int{}
+	}
+	if ex.vioCount[base] >= 3 {
+		return
+	}
+	ex.vioCount[base]++
 	r, vals := ex.modelFor(st, extra...)
 	if r != Sat {
 		ex.inconclusive = append(ex.inconclusive, fmt.Sprintf("%s %s: model query %v", kind, site, r))
